@@ -26,12 +26,12 @@ enum { R_NONE = 0, R_WVAR, R_RVAR, R_HANDLER, R_FINAL, R_HOLD, R_HOLD_REL, R_TVA
 struct refm {
         uint8_t phase;
         uint8_t kind;          /* expected handler kind in R_HANDLER */
-        int16_t cmd;
+        int32_t cmd;
         uint8_t type;          /* cat_cmd_type */
         uint8_t var_idx;
         uint8_t crlf;
-        uint8_t inv;           /* handler invocations so far for this line/event */
-        uint8_t nonterm_left;
+        uint32_t inv;          /* handler invocations so far for this line/event */
+        uint32_t nonterm_left;
         uint8_t args_num;
         uint8_t dontcare_var;  /* 1+index of a buffer variable whose content is unspecified after a failed parse */
         uint8_t cb_pending;    /* write vars: 0 need parse, 1 waiting for callback, 2 callback done; read vars: 1 waiting */
@@ -87,7 +87,7 @@ struct wint {
         uint8_t *buf, *ubuf;
         uint8_t **vardata, **shadow;
         int *varoff;
-        int nvars, nreg;
+        int nvars, nreg, n_ro;        /* n_ro: number of read-only variables (the per-call byte compare is skipped when there are none) */
         int cap, ucap;
         /* transient (not state) */
         int depth;
